@@ -6,6 +6,11 @@
 //	kill     a child process saves a list of states in a loop and is killed (SIGKILL) at a
 //	         random moment; the parent then Loads: it must get the last state the child
 //	         reported as saved or the next one, never anything else, whatever temp files remain;
+//	history  a sequence of Saves into ONE directory, some of them cut by a process kill inside the
+//	         hook or failed by the hook, with state sizes that shrink as well as grow; after every
+//	         event the directory is listed and Load is called: a Save that returned nil must be
+//	         what Load returns, a failed / killed Save must leave the previous or the new state;
+//	         the temp name Save chose is observed (was it already present before the Save?);
 //	hook     the WithAfterTempWriteHook point: the directory is observed inside the hook, then
 //	         the hook returns nil / returns an error / panics / the Save happens in a child that
 //	         kills itself inside the hook; the directory is observed again, then Load;
@@ -58,6 +63,9 @@ type stateSpec struct {
 	Backup   int    `json:"backup"` // 0 none, 1 plan, 2 plan + active job (256 slots)
 	Ops      bool   `json:"ops_mcp"`
 	Nano     int    `json:"nano"`
+	// history cases: how this state is saved. 0 Save in this process; 1 Save in a child that kills
+	// itself inside the after-temp-write hook; 2 Save in this process with a failing hook
+	Mode int `json:"mode,omitempty"`
 }
 
 // makeState builds a valid cluster state from its parameters.
@@ -166,7 +174,27 @@ func genSpec(r *rand.Rand, rev uint64) stateSpec {
 
 func gen(r *rand.Rand, tier string, i int) input {
 	var in input
-	switch k := r.IntN(20); {
+	switch k := r.IntN(26); {
+	case k >= 20:
+		in.Kind = "history"
+		n := 3 + r.IntN(6)
+		small := func(rev uint64) stateSpec {
+			return stateSpec{Revision: rev, Nodes: 1, Slots: 0, Nano: 0}
+		}
+		for j := 0; j < n; j++ {
+			sp := genSpec(r, uint64(j+1))
+			if sp.Backup > 1 && tier != "thorough" {
+				sp.Backup = 1
+			}
+			sp.Mode = vh.Pick(r, 0, 0, 0, 1, 1, 2)
+			if j > 0 && in.Ops[j-1].Mode != 0 && vh.Chance(r, 0.7) {
+				sp = small(uint64(j + 1)) // after an interrupted Save of a larger state, a smaller one
+			}
+			if sp.Mode == 1 && vh.Chance(r, 0.5) {
+				sp.Nodes, sp.Slots, sp.Health, sp.Tasks = 6, 4, 3, true // the interrupted Save is a large one
+			}
+			in.Ops = append(in.Ops, sp)
+		}
 	case k < 10:
 		in.Kind = "kill"
 		n := 2 + r.IntN(5)
@@ -233,6 +261,17 @@ func childMain() {
 		os.Exit(3)
 	}
 	saves := 0
+	if mode == "one" { // save one state and die inside the hook
+		var idx int
+		fmt.Sscan(os.Getenv("C19_INDEX"), &idx)
+		st := statefile.New(filepath.Join(dir, "data", "cluster-state.json"), statefile.WithAfterTempWriteHook(func() error {
+			_ = syscall.Kill(os.Getpid(), syscall.SIGKILL)
+			time.Sleep(time.Second)
+			return nil
+		}))
+		_ = st.Save(context.Background(), states[idx])
+		os.Exit(6)
+	}
 	store := statefile.New(filepath.Join(dir, "data", "cluster-state.json"), statefile.WithAfterTempWriteHook(func() error {
 		if mode == "selfkill" && saves == len(states)-1 {
 			_ = syscall.Kill(os.Getpid(), syscall.SIGKILL)
@@ -331,7 +370,7 @@ func prepare(in input) (string, []state.ClusterState, [][]byte) {
 	return dir, states, enc
 }
 
-func spawn(dir string, in input, mode string) *exec.Cmd {
+func spawn(dir string, in input, mode string, extra ...string) *exec.Cmd {
 	raw, _ := json.Marshal(in.Ops)
 	if err := os.WriteFile(filepath.Join(dir, "specs.json"), raw, 0o644); err != nil {
 		panic(err)
@@ -341,7 +380,7 @@ func spawn(dir string, in input, mode string) *exec.Cmd {
 		panic(err)
 	}
 	cmd := exec.Command(exe)
-	cmd.Env = append(os.Environ(), childEnv+"="+mode, "C19_DIR="+dir)
+	cmd.Env = append(append(os.Environ(), childEnv+"="+mode, "C19_DIR="+dir), extra...)
 	if err := cmd.Start(); err != nil {
 		panic(err)
 	}
@@ -358,7 +397,7 @@ func progress(dir string) int {
 
 func runKill(in input) vh.Result {
 	if len(in.Ops) == 0 {
-		return vh.Result{Coq: vh.App("KillCase", "0", "0", codeZ(-1), "[]"), Class: "kill,empty", Trivial: true}
+		return vh.Result{Coq: vh.App("KillCase", "0", "0", codeZ(-1), "[]", "true"), Class: "kill,empty", Trivial: true}
 	}
 	dir, states, enc := prepare(in)
 	defer os.RemoveAll(dir)
@@ -376,9 +415,17 @@ func runKill(in input) vh.Result {
 	loaded, class := loadClass(store, states)
 	obs := observeDir(filepath.Join(dir, "data"), enc)
 	temps := vh.ListOf(obs.Temps, codeZ)
+	// the restarted process saves a further (small) state into the same directory
+	small := makeState(stateSpec{Revision: 1000003, Nodes: 1})
+	resaveOK := false
+	if err := store.Save(context.Background(), small); err == nil {
+		if got, err := store.Load(context.Background()); err == nil && reflect.DeepEqual(got, small) {
+			resaveOK = true
+		}
+	}
 	return vh.Result{
-		Coq:   vh.App("KillCase", vh.N(uint64(n)), vh.N(uint64(done)), codeZ(loaded), temps),
-		Obs:   map[string]any{"saves_reported": done, "loaded": loaded, "load": class, "temp_files": obs.Temps, "main": obs.Main},
+		Coq:   vh.App("KillCase", vh.N(uint64(n)), vh.N(uint64(done)), codeZ(loaded), temps, vh.B(resaveOK)),
+		Obs:   map[string]any{"saves_reported": done, "loaded": loaded, "load": class, "temp_files": obs.Temps, "main": obs.Main, "save_after_restart_loads": resaveOK},
 		Class: fmt.Sprintf("kill,saves=%s,temps=%d,%s", bucket(done), len(obs.Temps), class),
 	}
 }
@@ -393,6 +440,79 @@ func bucket(n int) string {
 		return "4-19"
 	default:
 		return "20+"
+	}
+}
+
+// ---- history ----------------------------------------------------------------------------------------
+
+func listNames(dir string) map[string]bool {
+	out := map[string]bool{}
+	ents, _ := os.ReadDir(dir)
+	for _, e := range ents {
+		if e.Name() != "cluster-state.json" {
+			out[e.Name()] = true
+		}
+	}
+	return out
+}
+
+func hasNew(before, now map[string]bool) bool {
+	for n := range now {
+		if !before[n] {
+			return true
+		}
+	}
+	return false
+}
+
+func runHistory(in input) vh.Result {
+	dir, states, enc := prepare(in)
+	defer os.RemoveAll(dir)
+	data := filepath.Join(dir, "data")
+	path := filepath.Join(data, "cluster-state.json")
+	var events []string
+	var trace []map[string]any
+	kills, shrinks, prevLen := 0, 0, 0
+	for i := range states {
+		mode := in.Ops[i].Mode
+		if mode < 0 || mode > 2 {
+			mode = 0
+		}
+		before := listNames(data)
+		saveres, fresh := 0, false
+		switch mode {
+		case 1:
+			cmd := spawn(dir, in, "one", fmt.Sprintf("C19_INDEX=%d", i))
+			_ = cmd.Wait()
+			saveres = 3
+			fresh = hasNew(before, listNames(data))
+			kills++
+		default:
+			store := statefile.New(path, statefile.WithAfterTempWriteHook(func() error {
+				fresh = hasNew(before, listNames(data)) // the temp file Save chose: a name not present before?
+				if mode == 2 {
+					return errHook
+				}
+				return nil
+			}))
+			if err := store.Save(context.Background(), states[i]); err != nil {
+				saveres = 1
+			}
+		}
+		if len(enc[i]) < prevLen {
+			shrinks++
+		}
+		prevLen = len(enc[i])
+		loaded, class := loadClass(statefile.New(path), states)
+		obs := observeDir(data, enc)
+		events = append(events, vh.App("HEv", vh.N(uint64(mode)), vh.N(uint64(i)), vh.N(uint64(saveres)), vh.B(fresh), codeZ(loaded), codeZ(obs.Main), vh.ListOf(obs.Temps, codeZ)))
+		trace = append(trace, map[string]any{"state": i, "bytes": len(enc[i]), "mode": mode, "save": saveres, "fresh_temp_name": fresh, "loaded": loaded, "load": class, "main": obs.Main, "temps": obs.Temps})
+	}
+	return vh.Result{
+		Coq:     vh.App("HistCase", vh.List(events)),
+		Obs:     trace,
+		Class:   fmt.Sprintf("history,events=%s,kills=%d,shrinks=%s", bucket(len(states)), kills, bucket(shrinks)),
+		Trivial: len(states) == 0,
 	}
 }
 
@@ -664,6 +784,8 @@ func run(in input) vh.Result {
 		return runKill(in)
 	case "hook":
 		return runHook(in)
+	case "history":
+		return runHistory(in)
 	case "corrupt":
 		return runCorrupt(in)
 	default:
